@@ -348,7 +348,7 @@ def gen_spec(rng: random.Random, feat=None):
         taken = {snake(t_['cls']) for m_ in modules for t_ in m_['tasks']} | {t_.get('meta_name') for m_ in modules for t_ in m_['tasks']}
         for m_ in modules:
             cands_ = [t_ for t_ in m_['tasks'] if not t_.get('abstract') and not t_.get('meta_name')]
-            if cands_ and rng.random() < 0.15:
+            if cands_ and rng.random() < feat.get('meta_inheritance_p', 0.15):
                 a_ = rng.choice(cands_)
                 b_ = copy.deepcopy(a_)
                 b_['cls'] = a_['cls'] + 'Strict'
@@ -356,6 +356,18 @@ def gen_spec(rng: random.Random, feat=None):
                 if snake(b_['cls']) not in taken:
                     m_['tasks'].insert(m_['tasks'].index(a_) + 1, b_)
                     taken.add(snake(b_['cls']))
+                    if rng.random() < 0.5:
+                        b_['class_base'] = a_['cls']        # `class XStrict(X)`: the task class itself derives from the other task class
+                        bare_ = slug_of(a_, pkg, m_).split(':')[-1]
+                        used_ = any(i_.get('ref_class') == a_['cls'] or (i_.get('ref') or '').split('::')[-1].split(':')[-1] == bare_ or i_['form'].startswith('pattern')
+                                    for m2_ in modules for t2_ in m2_['tasks'] for i_ in t2_.get('inputs', []))
+                        mp_ = mod_path(m_)
+                        if feat['excluded'] and not used_ and rng.random() < 0.6:
+                            # the base class is excluded from the chain; the class derived from it is a task of its own and stays
+                            for f_ in files.values():
+                                for pd_ in f_['parts'].values():
+                                    if pd_.get('tasks') == [mp_ + '.*'] and 'excluded_tasks' not in pd_:
+                                        pd_['excluded_tasks'] = [f'{mp_}.{a_["cls"]}']
     spec['fnames'] = fnames
     spec['extra_mounts'] = extra_mounts
     spec['free_ns_words'] = list(ns_words)
@@ -742,6 +754,35 @@ def inject_error(rng, spec, kind):
             if inp.get('access') == 'index':
                 inp['index'] = pos
         return f'dangling required input {ref} on {t["cls"]}'
+    if kind == 'dangling_class':
+        # an input declared by CLASS whose class is not a task of the chain, while another class provides a task of the same short name in a group
+        cands = [(mi, ts) for mi, ts in mods if ts]
+        mi, ts = rng.choice(cands)
+        module = spec['modules'][mi]
+        if module.get('package') or any(t_.get('base') in ('ModuleTask', 'DoubleModuleTask') for t_ in ts):
+            return None
+        mp = '.'.join([pkg, module['name']])
+        t = rng.choice(ts)
+        ghost = {'cls': 'GhostQq', 'data_kind': 'json_dict', 'params': [], 'inputs': []}
+        namesake = {'cls': 'GhostQqHolder', 'meta_name': 'ghost_qq', 'group': rng.choice(['gq', 'gq:hq']), 'data_kind': 'json_dict', 'params': [], 'inputs': []}
+        listed = False
+        for f_ in spec['files'].values():
+            for pd_ in f_['parts'].values():
+                decl = pd_.get('tasks') or []
+                if decl == [mp + '.*']:
+                    pd_['excluded_tasks'] = list(pd_.get('excluded_tasks', [])) + [f'{mp}.GhostQq']
+                    listed = True
+                elif any(d.startswith(mp + '.') for d in decl):
+                    decl.append(f'{mp}.GhostQqHolder')
+                    listed = True
+        if not listed:
+            return None
+        module['tasks'] = [ghost, namesake] + module['tasks']
+        t['inputs'].insert(0, {'form': 'class', 'ref_class': 'GhostQq', 'ref_class_path': f'{mp}.GhostQq', 'access': 'registry', 'registry_key': 'ghost_qq'})
+        for pos, inp in enumerate([i for i in t['inputs'] if not i.get('in_parameters')]):
+            if inp.get('access') == 'index':
+                inp['index'] = pos
+        return f'required input by class GhostQq (not a task of the chain; {namesake["group"]}:ghost_qq of another class exists) on {t["cls"]}'
     if kind in ('selfloop', 'cycle2', 'cycle3'):
         need = {'selfloop': 1, 'cycle2': 2, 'cycle3': 3}[kind]
         cands = [(mi, ts) for mi, ts in mods if len(ts) >= need]
